@@ -3,7 +3,7 @@ C12 — `cue export` / `cue import` are inverse across JSON, YAML, TOML and CUE.
 
 The Lean side of this property is the TOML codec (the JSON and YAML legs are C10 / C11; the
 CLI composition is exercised by the harness on the `cue` binary built from the working tree).
-Only statements live here; the proofs are in CueVerif/Proofs/Toml{Key,Round,Sem}.lean.
+Only statements live here; the proofs are in CueVerif/Proofs/Toml{Key,Round,Sem,EmitValid}.lean.
 
 Model: CueVerif/Model/Toml.lean (decoder state machine of encoding/toml/decode.go over the
 root expressions of the go-toml parser; what the encoder emits for a data tree).
@@ -12,6 +12,7 @@ Specification: CueVerif/Spec/Toml.lean (TOML 1.0.0 as a store of defined paths).
 import CueVerif.Proofs.TomlKey
 import CueVerif.Proofs.TomlRound
 import CueVerif.Proofs.TomlSem
+import CueVerif.Proofs.TomlEmitValid
 namespace CueVerif.C12
 open CueVerif CueVerif.Toml CueVerif.Toml.Spec
 
@@ -92,13 +93,12 @@ theorem C12_toml_sem_partial_noarrays (evs : List Ev) (fs : List Fact)
     ∃ fs', decode evs = .ok fs' ∧ SameData fs fs' :=
   Toml.sem_partial_noarrays evs fs hna h
 
-/-- Every emission of the encoder is valid TOML with the meaning of the tree.
--- OPEN: not proved; the driver op `tomlround` evaluates exactly this on every generated tree
-(the specification must accept the model's emission with the facts of the tree), and
-`C12_toml_roundtrip` is proved directly on the decoder model. -/
-def C12_toml_emit_valid_stmt : Prop :=
-  ∀ (t : Tree) (evs : List Ev), SafeTree t → emit t = some evs →
-    ∃ fs, tomlSpec evs = .ok fs ∧ SameData fs (t.facts [])
+/-- Every emission of the encoder is valid TOML (accepted by the reference semantics) with the
+meaning of the tree: for EVERY TOML-safe tree.  (Independent of `C12_toml_roundtrip`, which is
+proved directly on the decoder model.) -/
+theorem C12_toml_emit_valid (t : Tree) (evs : List Ev) (hs : SafeTree t) (he : emit t = some evs) :
+    ∃ fs, tomlSpec evs = .ok fs ∧ SameData fs (t.facts []) :=
+  Toml.emit_valid t evs hs he
 
 -- non-vacuity: a document without array tables (a sub-table before its super-table, a dotted
 -- key, an inline table with a dotted key) is accepted by the specification
